@@ -154,6 +154,26 @@ def relayout(root, rng):
         repl = _clone_with(v, {"data": nd})
         cur = rebuild(cur, v, replacement=repl)
         changed += 1
+    # ... and, in one node, the Python ints of a shape / an index / an axis
+    # number / a shift become numpy integers of the same value (what a user
+    # gets from len(), np.prod or an index computed with numpy): equal for ==,
+    # equal hash, and the persistent key must agree as well
+    cands = []
+    for v in iter_nodes(cur):
+        if not _is_dc(v):
+            continue
+        for name, val in field_items(v):
+            if isinstance(val, int) and not isinstance(val, bool):
+                cands.append((v, name, val))
+            elif isinstance(val, tuple) and val and all(
+                    isinstance(x, int) and not isinstance(x, bool) for x in val):
+                cands.append((v, name, val))
+    if cands:
+        v, name, val = cands[rng.randrange(len(cands))]
+        tp = rng.choice([np.int64, np.int64, np.int32, np.intp])
+        nv = tuple(tp(x) for x in val) if isinstance(val, tuple) else tp(val)
+        cur = rebuild(cur, v, changes={name: nv})
+        changed += 1
     return cur, changed
 
 
